@@ -19,6 +19,11 @@ REPO = "/repo"
 
 # property -> list of (name, file relative to /repo, old, new)
 MUTANTS = {
+    "C12": [
+        ("rk-c4", "src/phreeqcpp/kinetics.cpp", "250. / 621., c4 = 125. / 594., c6 = 512. / 1771., dc5 =", "250. / 621., c4 = 126. / 594., c6 = 512. / 1771., dc5 ="),
+        ("rk-b32", "src/phreeqcpp/kinetics.cpp", "LDBLE b31 = 3. / 40., b32 = 9. / 40.,", "LDBLE b31 = 3. / 40., b32 = 9. / 41.,"),
+        ("cvode-abstol-x1000", "src/phreeqcpp/kinetics.cpp", "Ith(kinetics_abstol, j + 1) = kinetics_comp_ptr->Get_tol();", "Ith(kinetics_abstol, j + 1) = kinetics_comp_ptr->Get_tol() * 1e7;"),
+    ],
     "C11": [
         ("advection-skip-last-cell", "src/phreeqcpp/advection.cpp", "\t\tfor (i = count_ad_cells; i > 0; i--)\n\t\t{\n\t\t\t//solution_duplicate(i - 1, i);", "\t\tfor (i = count_ad_cells; i > 1; i--)\n\t\t{\n\t\t\t//solution_duplicate(i - 1, i);"),
         ("mix-asymmetric*", "src/phreeqcpp/transport.cpp", "temp_mix.Add(i + 1, m1[i]);", "temp_mix.Add(i + 1, m1[i] * 1.0001);"),
